@@ -64,9 +64,11 @@ class WFSA(base.WFSA):
         self = self.epsremove.renumber
 
         S = self.dim
-        start = np.full(S, self.R.zero)
-        arcs = {a: np.full((S, S), self.R.zero) for a in self.alphabet}
-        stop = np.full(S, self.R.zero)
+        # NB: `self.R.zero` is the int 0; without an explicit dtype these would
+        # be integer arrays and `+=` would truncate fractional weights.
+        start = np.full(S, self.R.zero, dtype=float)
+        arcs = {a: np.full((S, S), self.R.zero, dtype=float) for a in self.alphabet}
+        stop = np.full(S, self.R.zero, dtype=float)
 
         for i, w in self.I:
             start[i] += w
@@ -233,8 +235,13 @@ class Simple:
         )
 
     def forward_basis(self):
-        worklist = [self.start]
-        basis = [self.start]
+        worklist = []
+        basis = []
+        if not approx_equal(self.start, 0):
+            # a null start vector spans nothing (and projecting onto it would
+            # divide by zero, which made `min` loop forever on NaNs).
+            worklist.append(self.start)
+            basis.append(self.start)
         while worklist:
             V = worklist.pop()
             for a in self.arcs:
@@ -243,7 +250,7 @@ class Simple:
                 if not approx_equal(u - q, u):
                     worklist.append(u)
                     basis.append(q)
-        return np.array(basis)
+        return np.array(basis, dtype=float).reshape(len(basis), self.dim)
 
     def backward_conjugate(self):
         return self.reverse.forward_conjugate().reverse
